@@ -618,6 +618,34 @@ def oracle_headers(op, hs, line):
     return oracle_info(v, line)
 
 
+def oracle_connq(words, line):
+    """pipelined requests on one real connection; inside the URI-log callback (before the header fields are read) there
+    are no credentials; in every call of the access handler the answers are those of this request's own headers,
+    however often and however early the application asked before"""
+    early = words[1] == "1"
+    reqs = line.split(" / ")
+    if len(reqs) != len(words) - 2:
+        return "expected %d requests, the handler saw %d" % (len(words) - 2, len(reqs))
+    if "REPEAT-DIFF" in line:
+        return "a repeated query gave a different answer"
+    for w, r in zip(words[2:], reqs):
+        hs = [] if w == "-" else [(1, b"Authorization", unhx(x)) for x in w.split(",")]
+        ph = re.findall(r"\[(u|h\d)=([^\]]*)\]", r)
+        tags = [t for t, _ in ph]
+        if tags != (["u"] if early else []) + ["h1", "h2", "h3"]:
+            return "unexpected sequence of callbacks: %s" % " ".join(tags)
+        for t, content in ph:
+            hb, _, hi = content.partition(" ; ")
+            if t == "u":
+                if content != "basic none ; info none":
+                    return "credentials reported before the header fields were read: " + content
+                continue
+            err = oracle_headers("b", hs, hb) or oracle_headers("i", hs, hi)
+            if err:
+                return "handler call %s%s: %s" % (t, " after a query in the URI-log callback" if early else "", err)
+    return None
+
+
 def oracle_layout(value, line):
     """every returned pointer refers to bytes inside the allocated block; regions (strings with NUL) are disjoint"""
     for part in line.split(" | "):
@@ -973,6 +1001,8 @@ class Spec:
                          "Mhd.C14.info_block_layout", "Mhd.C14.username_block_layout", "Mhd.C14.uname_type_exact",
                          "Mhd.C14.digest_api_first_matching_header", "Mhd.C14.digest_api_no_header",
                          "Mhd.C14.basic_api_first_matching_header", "Mhd.C14.basic_api_no_header", "Mhd.C14.api_single_header",
+                         "Mhd.C14.early_query_not_cached", "Mhd.C14.late_query_after_early", "Mhd.C14.basic_query_spec",
+                         "Mhd.C14.digest_query_spec", "Mhd.C14.next_request_fresh",
                          "Mhd.C14.digest_roundtrip", "Mhd.C14.digest_rendering_invariant", "Mhd.C14.digest_roundtrip_full",
                          "Mhd.C14.algo_quoting_invariant", "Mhd.C14.qop_quoting_invariant", "Mhd.C14.userhash_quoting_invariant",
                          "Mhd.C14.digest_no_fault", "Mhd.C14.digest_fault_sites", "Mhd.C14.digest_term_irrelevant",
@@ -1001,7 +1031,7 @@ class Spec:
         # the driver does not depend on the proofs: make sure it exists even when the theorems do not build
         drv = vlib.driver_path("drv_auth")
         srcs = [os.path.join(vlib.LEAN, f) for f in ("Mhd/Gen/Auth.lean", "Mhd/Model/AuthStr.lean", "Mhd/Model/Auth.lean",
-                                                      "Mhd/Model/AuthInfo.lean", "Driver/Auth.lean", "Driver/Common.lean")]
+                                                      "Mhd/Model/AuthInfo.lean", "Mhd/Model/AuthCache.lean", "Driver/Auth.lean", "Driver/Common.lean")]
         if not os.path.exists(drv) or any(os.path.getmtime(f) > os.path.getmtime(drv) for f in srcs):
             vlib.lake_build(["drv_auth"])
         objs = vlib.cc_lib_objects("auth_objs", exclude=["gen_auth.c"])
@@ -1064,6 +1094,8 @@ class Spec:
                 err = oracle_headers("b", hs, hb) or oracle_headers("i", hs, hi)
             elif op == "layout":
                 err = oracle_layout(unhx(w[1]), h)
+            elif op == "connq":
+                err = oracle_connq(w, h)
             if err is None and extra_oracle is not None:
                 err = extra_oracle(h)
         except Exception as ex:          # the oracle must never hide a case
@@ -1223,6 +1255,35 @@ class Spec:
             if nm_conn < (120 if not thorough else 600) and 2 <= len(vals) <= 8 and \
                     all(v and all(c not in (0, 10, 13) for c in v) for v in vals):
                 add("real_connection", "connm " + " ".join(hx(v) for v in vals)); nm_conn += 1
+        # 9b. the per-request cache on the real daemon: URI-log callback queries (before the header fields exist), then the
+        #     handler queries in all three calls of a POST, every query twice; pipelined requests with other credentials
+        qstats = {"cases": 0, "with_early_query": 0, "requests": 0, "requests_with_valid_basic": 0, "requests_with_in_grammar_digest": 0,
+                  "pipelined_with_different_credentials": 0}
+        for i in range((250 if not thorough else 1500)):
+            reqs = []
+            for _ in range(rng.choice([1, 1, 2, 2, 3])):
+                vals = []
+                for _ in range(rng.choice([0, 1, 1, 1, 2, 3])):
+                    r = rng.random()
+                    if r < 0.45:
+                        v = b"Digest " + rng.choice(sems)[1]
+                    elif r < 0.85:
+                        v = b"Basic " + base64.b64encode(rnd_bytes(rng, b"abcXYZ09", 1, 6) + b":" + rnd_bytes(rng, b"abc:XYZ09", 0, 6))
+                    else:
+                        v = rng.choice([b"Digest nc=1;", b"Basic QTpC QTpC", b"Basicx QTpC", b"Digest", b"Negotiate abc", b"Basic ===="])
+                    v = v.strip(b" \t")
+                    if v and all(c not in (0, 10, 13) for c in v):
+                        vals.append(v)
+                reqs.append(vals)
+            early = 1 if rng.random() < 0.7 else 0
+            add("request_cache", "connq %d %s" % (early, " ".join(",".join(hx(v) for v in vs) if vs else "-" for vs in reqs)))
+            qstats["cases"] += 1; qstats["with_early_query"] += early; qstats["requests"] += len(reqs)
+            for vs in reqs:
+                hs = [(1, b"Authorization", v) for v in vs]
+                bv, dv = first_auth_value(hs, b"Basic"), first_auth_value(hs, b"Digest")
+                qstats["requests_with_valid_basic"] += bv is not None and ref_basic(bv) is not None
+                qstats["requests_with_in_grammar_digest"] += dv is not None and ref_digest(ref_scheme(dv, b"Digest")) is not None
+            qstats["pipelined_with_different_credentials"] += len(reqs) > 1 and any(a != b for a, b in zip(reqs, reqs[1:]))
         # 10. layout of the block returned by the information API
         lstats = {"cases": 0, "userhash_odd_length": 0, "userhash_even_length": 0, "extended": 0, "empty_but_present_username": 0}
         for sem, s_, spans in sems[: 1500 * mult]:
@@ -1310,7 +1371,7 @@ class Spec:
                     elif extra and extra[0] == "corrupt":
                         eo = self.corruption_rule(orig.get(extra[1]), extra, stats)
                     if self.judge(line, h, m, failures, stats, eo):
-                        if w[0] in ("dparse", "info", "conn", "infoh", "connm", "layout") and not h.startswith("fail") and "none" not in h[:10]:
+                        if w[0] in ("dparse", "info", "conn", "infoh", "connm", "connq", "layout") and not h.startswith("fail") and "none" not in h[:10]:
                             distinct.add(line)
                     if w[0] == "dparse" and ref_digest(unhx(w[1])) is not None:
                         stats["in_grammar"] += 1
@@ -1334,7 +1395,7 @@ class Spec:
                "in_grammar_dparse_cases": stats["in_grammar"],
                "corruption": {k: stats[k] for k in ("corruptions", "corrupt_rejected", "corrupt_changed_field", "corrupt_unchanged")}
                | {"corrupt_still_in_grammar_judged_by_reference": stats.get("corrupt_still_in_grammar", 0)},
-               "header_lists": hstats, "layout": lstats,
+               "header_lists": hstats, "layout": lstats, "request_cache": qstats,
                "cases_matching_a_registered_known_finding": sum(1 for f in failures if known_cache.get(f.signature)),
                "str_len_read": {"in_grammar_strings_rejected_because_str[str_len]_was_semicolon": stats.get("f5b_nonnul_terminator_rejects_in_grammar", 0),
                                 "exact_buffer_cases_without_read": stats["term_none_no_read"],
